@@ -1289,21 +1289,36 @@ where
     }
 
     pub(crate) async fn fsyncdata(&self) -> IOResult<()> {
-        if self.fsync_in_progress.compare_exchange(false, true, Ordering::AcqRel, Ordering::Acquire).is_err() {
-            return Ok(())
-        }
-
-        let _flag = ResetableFlag { flag: &self.fsync_in_progress };
-
-        let safe = self.safe.read().await;
-        if let Some(ablob) = &safe.active_blob {
-            let ablob = ablob.read().await;
-            if !self.too_many_dirty_bytes(ablob.file_dirty_bytes()) {
+        loop {
+            if self.fsync_in_progress.compare_exchange(false, true, Ordering::SeqCst, Ordering::SeqCst).is_err() {
+                // the sync that is in progress looks at the dirty bytes again when it is done
+                return Ok(());
+            }
+            {
+                let _flag = ResetableFlag { flag: &self.fsync_in_progress };
+                let safe = self.safe.read().await;
+                if self.too_many_dirty_bytes_in_active_blob(&safe).await {
+                    safe.fsyncdata().await?;
+                }
+            }
+            // A write that crossed the limit while the flag was up has not asked for a sync. Look again now that the
+            // flag is down: a write that finishes after this look sees the flag down and asks by itself.
+            let safe = self.safe.read().await;
+            if !self.too_many_dirty_bytes_in_active_blob(&safe).await {
                 return Ok(());
             }
         }
+    }
 
-        safe.fsyncdata().await
+    async fn too_many_dirty_bytes_in_active_blob(&self, safe: &Safe<K>) -> bool {
+        match &safe.active_blob {
+            Some(ablob) => self.too_many_dirty_bytes(ablob.read().await.file_dirty_bytes()),
+            None => false,
+        }
+    }
+
+    pub(crate) fn fsync_in_progress(&self) -> bool {
+        self.fsync_in_progress.load(Ordering::SeqCst)
     }
 
     /// Dumps indexes on old blobs. This method is slow, so it is better to run it in background
@@ -1312,7 +1327,7 @@ where
     }
 
     pub(crate) fn should_try_fsync(&self, dirty_bytes: u64) -> bool {
-        self.too_many_dirty_bytes(dirty_bytes) && !self.fsync_in_progress.load(Ordering::Acquire)
+        self.too_many_dirty_bytes(dirty_bytes) && !self.fsync_in_progress()
     }
 
     fn too_many_dirty_bytes(&self, dirty_bytes: u64) -> bool {
@@ -1326,7 +1341,7 @@ struct ResetableFlag<'a> {
 
 impl<'a> Drop for ResetableFlag<'a> {
     fn drop(&mut self) {
-        self.flag.store(false, Ordering::Release);
+        self.flag.store(false, Ordering::SeqCst);
     }
 }
 
